@@ -82,7 +82,7 @@ def parse(line):
         return None
     if d["m"] not in ("rq", "rs") or d["p"] not in PREVIEWS or d["vk"] not in ("n", "k", "u") or d["end"] not in ("k", "c", "r"):
         return None
-    if not re.fullmatch(r"h|p|e|c\d+", d["at"]) or not re.fullmatch(r"204|200|200n|200r|206|e\d{3}|g|x|r|100", d["act"]):
+    if not re.fullmatch(r"h|p|e|c\d+", d["at"]) or not re.fullmatch(r"204|200|200n|200r|206|200x|206x|e\d{3}|g|x|r|100", d["act"]):
         return None
     if not re.fullmatch(r"-|[itb]\d+|z|y", d["cut"]):
         return None
@@ -142,17 +142,33 @@ class Harness:
         for n in names:
             conf.append("acl a_%s urlpath_regex /%s/" % (n, n))
             conf.append("adaptation_access %s allow a_%s" % (n, n))
+        self.stage = stage
+        self.conf = "\n".join(conf) + "\n"
+        self.names = names
         self.squid = None
+        self.n = 0
+        self.lock = threading.Lock()
+        self.crashes = 0
+        self.restarts = 0
+        self.start_squid()
+
+    def start_squid(self):
+        """(re)start squid -- main thread only"""
+        if self.squid is not None:
+            try:
+                self.squid.stop(kill=True)
+            except Exception:
+                pass
+        with self.icap.lock:
+            del self.icap.options_seen[:]
         for attempt in range(4):
             try:
-                self.squid = rig.Squid(stage, conf="\n".join(conf) + "\n").start(wait=90)
+                self.squid = rig.Squid(self.stage, conf=self.conf).start(wait=90)
                 break
             except RuntimeError:
                 if attempt == 3:
                     raise
-        self.n = 0
-        self.lock = threading.Lock()
-        self.crashes = 0
+        names = self.names
         # wait until every service has fetched its OPTIONS (squid treats a service without options as down)
         t0 = time.time()
         while time.time() - t0 < 30 * rig.VERIF_SLOW:
@@ -218,11 +234,10 @@ class Harness:
                 first = head + b"Transfer-Encoding: chunked\r\n\r\n"
                 if d["pre"]:
                     first += b"%x\r\n" % d["pre"] + V[:d["pre"]] + b"\r\n"
-                acts = [("send", first)]
                 if d["pre"] < len(V):
-                    acts += [("wait_event", gate, 10), ("send", b"%x\r\n" % (len(V) - d["pre"]) + V[d["pre"]:] + b"\r\n0\r\n\r\n")]
+                    acts = [("send", first), ("wait_event", gate, 10), ("send", b"%x\r\n" % (len(V) - d["pre"]) + V[d["pre"]:] + b"\r\n0\r\n\r\n")]
                 else:
-                    acts += [("send", b"0\r\n\r\n")]
+                    acts = [("send", first + b"0\r\n\r\n")]     # one write: the end of the body is known before the ICAP transaction starts
             self.origin.on(sid, lambda req: acts)
         else:
             self.origin.on(sid, lambda req: [("send", rig.simple_response(200, b"origin-reply", headers=[("X-Mark", "O")]))])
@@ -243,12 +258,12 @@ class Harness:
                 first = rh + b"Transfer-Encoding: chunked\r\n\r\n"
                 if d["pre"]:
                     first += b"%x\r\n" % d["pre"] + V[:d["pre"]] + b"\r\n"
-                c.send(first)
                 if d["pre"] < len(V):
+                    c.send(first)
                     self.icap.event(gate).wait(timeout=10 * rig.VERIF_SLOW)
                     c.send(b"%x\r\n" % (len(V) - d["pre"]) + V[d["pre"]:] + b"\r\n0\r\n\r\n")
                 else:
-                    c.send(b"0\r\n\r\n")
+                    c.send(first + b"0\r\n\r\n")
         r = c.response()
         c.close()
         self.icap.event(gate).set()
@@ -285,9 +300,7 @@ class Harness:
         if recs:
             k = recs[-1]
             got = k["preview"] + k["rest"]
-            saw = "ok" if V.startswith(got) and (not k["ended"] or k["ieof"] or got == V or k["preview_offered"] is not None) else "BAD"
-            if k["ended"] and not (k["preview_offered"] is not None and d["at"] == "p" and not k["ieof"]) and got != V:
-                saw = "BAD"
+            saw = "ok" if V.startswith(got) else "BAD"
             did = ",".join(k["did"]) or "-"
             vm = b"X-Mark: V" in (k["parts"].get("res-hdr", b"") if d["m"] == "rs" else k["parts"].get("req-hdr", b""))
             if not vm:
@@ -295,9 +308,30 @@ class Harness:
         self.icap.forget(sid)
         return "c=%s o=%s i=%d:%s:%s" % (cobs, oobs, len(recs), saw, did)
 
-    def run(self, lines):
-        with ThreadPoolExecutor(max_workers=int(os.environ.get("C60_WORKERS", "6"))) as ex:
+    def batch(self, lines, workers):
+        with ThreadPoolExecutor(max_workers=workers) as ex:
             return list(ex.map(rig.guarded(self.one, [self.squid]), lines))
+
+    def run(self, lines):
+        outs = self.batch(lines, int(os.environ.get("C60_WORKERS", "6")))
+        # a scenario that kills squid takes its neighbours down with it: restart and replay the casualties one by one
+        rounds = 0
+        while not self.squid.alive() and rounds < 3:
+            rounds += 1
+            dead = [i for i, o in enumerate(outs) if o.startswith("abort:")]
+            self.restarts += 1
+            self.start_squid()
+            for i in dead:
+                if self.restarts > 40:
+                    break
+                outs[i] = self.batch([lines[i]], 1)[0]
+                if not self.squid.alive():
+                    probs = self.squid.problems()
+                    outs[i] = "abort:squid-died " + (re.sub(r"\s+", "_", probs[0])[:120] if probs else "")
+                    self.crashes += 1
+                    self.restarts += 1
+                    self.start_squid()
+        return outs
 
     def close(self):
         if self.squid:
